@@ -3,6 +3,7 @@ package object
 import (
 	"context"
 	"fmt"
+	"reflect"
 
 	"github.com/risor-io/risor/compiler"
 	"github.com/risor-io/risor/errz"
@@ -53,7 +54,17 @@ func (m *Module) Override(name string, value Object) error {
 	if name == "__name__" {
 		return TypeErrorf("type error: cannot override attribute %q", name)
 	}
-	if _, found := m.builtins[name]; found {
+	if current, found := m.builtins[name]; found {
+		// Calling the module itself, e.g. regexp("a+"), runs one of its
+		// members. When that member is removed or replaced, the call goes with
+		// it: it is one more way to reach the function under this name.
+		if b, ok := current.(*Builtin); ok && m.callable != nil && b.fn != nil &&
+			reflect.ValueOf(b.fn).Pointer() == reflect.ValueOf(m.callable).Pointer() {
+			m.callable = nil
+			if replacement, ok := value.(*Builtin); ok {
+				m.callable = replacement.fn
+			}
+		}
 		if value == nil {
 			delete(m.builtins, name)
 			return nil
